@@ -101,7 +101,7 @@ def run_impl(case):
   for cid, c in tr['calls'].items():
     calls[cid] = {k: c.get(k) for k in ('issued', 'timeout', 'done', 'opened', 'final', 'final_ready', 'issue_error')}
   evs = [e for e in tr['events']]
-  args = {e['id']: e['id'] + '|' + e.get('pad', '') for e in case['spec']['events'] if e['op'] == 'call'}
+  args = {e['id']: e['id'] + '|' + e.get('pad', '') for e in _S['scenario'].call_events(case['spec'])}
   return {'calls': calls, 'events': evs, 'args': args, 'crashes': tr['crashes'], 'now': tr['now'], 'closed_at': tr.get('closed_at'),
           't_base': tr['t_base'], 'open_failed': tr.get('open_failed', False)}
 
